@@ -70,6 +70,12 @@ func ParseASN1PublicKey(data []byte) (*PublicKey, error) {
 		return nil, errInvalidAsn1Curve
 	}
 
+	// The public key is an OCTET STRING mapped to a BIT STRING, so it is
+	// always a whole number of octets; DER leaves no room for unused bits.
+	if subjectPublicKey.BitLength != 8*len(subjectPublicKey.Bytes) {
+		return nil, errInvalidAsn1SPKI
+	}
+
 	encodedPoint := subjectPublicKey.RightAlign()
 	return NewPublicKey(encodedPoint)
 }
